@@ -93,6 +93,18 @@ CHECKS.update({
    technique="TLA+ model checking (TLC) + trace validation of real simulation runs under virtual time"),
 })
 
+CHECKS.update({
+ "C16": dict(level="model_checking", ref="DESIGN.md 7 C16",
+   text="Router.tla: hosts, gateways and static routers with TTL, all interleavings of forwarding under correct, missing and looping route tables (TTL bound, one decrement per hop, "
+        "no multiplication, only the destination host receives, the networks fall silent); real ArpRouter topologies (lines, stars, rings, 2- and 3-router loops) where the specification "
+        "walks each datagram along the recorded configuration and TraceRouter.tla compares the walk with the IPv4 frames seen on every network (decoded from the RFC layout) and the deliveries.",
+   note=NET_NOTE, technique="TLA+ model checking (TLC) + trace validation of real router topologies"),
+ "C20": dict(level="model_checking", ref="DESIGN.md 7 C20",
+   text="Dns.tla: lookups with cache, queries from fresh ports, server replies copying identifier and name, client acceptance, any delivery order (right address, echo, cache correct, cached lookups "
+        "silent, nothing lost); a real DnsServer and real DnsClients with every frame delayed randomly, lookups concurrent and repeated, names up to 40 characters, validated by TraceDns.tla.",
+   note=NET_NOTE, technique="TLA+ model checking (TLC) + trace validation of real DNS executions with delayed frames"),
+})
+
 NOT_APPLICABLE = {}
 PENDING = ["C02", "C04", "C05", "C06", "C07", "C08", "C09", "C10", "C11", "C13", "C14", "C15", "C16", "C18", "C19", "C20"]
 
